@@ -42,6 +42,16 @@ def run(report, tier, seed):
             if d["kind"] == "protocol":
                 d["steps"] = [s for s in d["steps"] if not any(x in json.dumps(s[1]) for x in ('"date"', '"time"', '"datetime"'))]
         dlab = codeclab.Lab(sc, ybin, 1000, modelgen.Gen(seed * 100129 + 1000, json_safe=True, cpp_json_safe=True), pkg=dpkg, ndjson=True).prepare()
+        # unions written without a tag in NDJSON: the producer and the consumer are different languages, the case has to be recovered from the JSON type
+        # alone on the other side - for both declaration orders of every pair of JSON kinds
+        ulab = codeclab.Lab(sc, ybin, 1003, modelgen.Gen(seed * 100129 + 1003, json_safe=True, cpp_json_safe=True), pkg=modelgen.untagged_unions_package("Xunt", small=True),
+                            ndjson=True).prepare()
+        if ulab.ok:
+            ulab.min_stream_items = 4
+            report.count("models.untagged-unions")
+            _pairs(report, ulab, lean, 2 if quick else 8, seed, only=("cpp-ndjson->py-bin", "py-ndjson->cpp-bin") + (() if quick else ("cpp-bin->py-ndjson->cpp-bin", "py-bin->cpp-ndjson->py-bin")))
+        else:
+            report.violation(f"{ulab.stage}:model", {"seed": seed, "model": "untagged unions", "error": ulab.err, "files": _files(ulab)}, "")
         for lab in labs + [dlab]:
             if not lab.ok:
                 report.violation(f"{lab.stage}:model", {"seed": seed, "model_index": lab.idx, "error": lab.err, "files": _files(lab)}, "")
@@ -103,7 +113,7 @@ def _pairs(report, lab, lean, n_sets, seed, fixed_vals=None, only=None):
     for pname, pj in lab.protos.items():
         nstreams = sum(1 for s in pj if s["stream"])
         for k in range(n_sets):
-            vals = fixed_vals if fixed_vals is not None else g.gen_step_vals(pj)
+            vals = fixed_vals if fixed_vals is not None else g.gen_step_vals(pj, stream_len=getattr(lab, "min_stream_items", None))
             parts = [g.gen_partition(len(v[1])) if v[0] == "stream" else [] for v in vals]
             ref = bytes.fromhex(lean.ask({"op": "enc_proto", "proto": pj, "parts": parts, "vals": vals, "schema": lab.schemas[pname]})["hex"])
             inp = lab.tmp(".ref.bin")
